@@ -177,8 +177,6 @@ Proof.
       * destruct D as [D|D]; [left; exact D|right]. unfold cost at 2. rewrite U. destruct (semi st), (nlpos st =? 0); lia.
       * unfold cost at 2. rewrite U. destruct (semi st), (nlpos st =? 0); lia.
     + unfold step_ok, mu, cost. cbn [sc unit semi nlpos ttok Z.eqb]. right. rewrite U.
-      assert (Z1 : (sz (if is_xgo d then sc st else skip_ws (S (length (rest (sc st)))) (semi st) (sc st)) <= sz (sc st))%nat).
-      { destruct (is_xgo d); [lia|apply adv_sz, skip_ws_adv]. }
       destruct (semi st), (nlpos st =? 0); lia.
 Qed.
 
